@@ -1113,10 +1113,6 @@ Section Bridge.
     rewrite Hx. cbn [bind]. rewrite Hxt. cbn [bind]. reflexivity.
   Qed.
 
-  Lemma handler_caught {A} (ex : exn) (a b : res A) :
-    (if exn_is_a ex TypeError then a else if exn_is_a ex ValueError then a else b) = (if caught ex then a else b).
-  Proof. destruct ex; reflexivity. Qed.
-
   (* AllOf *)
   Lemma allof_loop (rec : nat -> pyval -> res pyval) name n iattrs v :
     validating iattrs = true ->
@@ -1189,7 +1185,7 @@ Section Bridge.
       cbn [co_field_set]. rewrite scratch0_validating.
       destruct (rec f v) as [nf|ex]; cbn [bind catch].
       + eexists. eexists. split; [|reflexivity]. rewrite nm_set_same. apply alist_get_set_same.
-      + rewrite handler_caught. destruct (caught ex); [apply IH | reflexivity].
+      + destruct ex; cbn [exn_is_a exn_eqb orb caught is_te_ve]; first [apply IH | reflexivity].
   Qed.
 
   Theorem generated_anyof : forall fs name nm iattrs v,
@@ -1237,7 +1233,7 @@ Section Bridge.
         destruct (oneof_combine (map (fun f0 => rec f0 v) fl)) as [cnt|ex].
         * destruct IH as (nm' & IH). exists nm'. unfold zint in *. rewrite IH. f_equal. f_equal. f_equal. f_equal. lia.
         * exact IH.
-      + rewrite handler_caught. destruct (caught ex); [apply IH | reflexivity].
+      + destruct ex; cbn [exn_is_a exn_eqb orb caught is_te_ve]; first [apply IH | reflexivity].
   Qed.
 
   Lemma truthy_zint z : py_truthy (zint z) = negb (z =? 0).
@@ -1290,7 +1286,7 @@ Section Bridge.
     - sx2. rewrite (scratch_instance_spec rec _ iattrs Hi). cbn [catch fst snd]. cbv zeta.
       cbn [co_field_set]. rewrite scratch0_validating.
       destruct (rec f v) as [nf|ex]; cbn [bind catch]; [reflexivity|].
-      rewrite handler_caught. destruct (caught ex); [apply IH | reflexivity].
+      destruct ex; cbn [exn_is_a exn_eqb orb caught is_te_ve]; first [apply IH | reflexivity].
   Qed.
 
   Theorem generated_notfield : forall fs name nm iattrs v,
